@@ -849,7 +849,14 @@ pub fn s_hist(cx: &mut Ctx) {
             if let Some(_) = open_it {
                 if cx.rng.chance(1, 3) {
                     cx.op("pathsi.next".into());
-                    if cx.reply() == "end" || cx.reply().starts_with("panic") || cx.reply() == "closed" {
+                    if cx.reply() == "end" {
+                        // poll past the end once or twice more, then drop the iterator
+                        for _ in 0..(1 + cx.rng.below(2)) {
+                            cx.op("pathsi.next".into());
+                        }
+                        cx.op("pathsi.close".into());
+                        open_it = None;
+                    } else if cx.reply().starts_with("panic") || cx.reply() == "closed" {
                         open_it = None;
                     }
                 }
@@ -1324,10 +1331,44 @@ pub fn s_huge(cx: &mut Ctx) {
         lap("counting done");
         // (b) a collection that keeps the whole filler: holes only at the bottom and at the top, a run of
         // more than 2^16 occupied cells in between; then allocations that must find both groups of holes
+        // a diagram of several thousand nodes that survives the collection …
+        // (a selector tree over variables 3..8 with 64 block tops as leaves: some 20 000 nodes)
+        let mut level: Vec<usize> = tops.iter().copied().take(64).collect();
+        let mut sv = 8u64;
+        while level.len() > 1 && sv >= 3 {
+            let mut nxt = vec![];
+            for pair in level.chunks(2) {
+                if pair.len() == 2 && cx.ex.env[pair[0]] != cx.ex.env[pair[1]] {
+                    nxt.push(cx_op!(cx, format!("node {} {} {}", sv, pair[0], pair[1])));
+                } else {
+                    nxt.push(pair[0]);
+                }
+            }
+            level = nxt;
+            sv -= 1;
+        }
+        let bigf = level[0];
+        let bigg = cx_op!(cx, format!("not {}", tops[tops.len() - 1]));
         let mut roots: Vec<String> = vars.iter().map(|h| h.to_string()).collect();
         roots.extend(filler.iter().map(|h| h.to_string()));
         roots.extend(structured.iter().map(|h| h.to_string()));
+        roots.push(bigf.to_string());
+        roots.push(bigg.to_string());
         cx_op!(cx, format!("gc {}", roots.join(" ")));
+        // … and young parents over it in the freed LOW cells (parent index below child index)
+        {
+            let p1 = cx_op!(cx, format!("node 2 1 {}", bigf));
+            let p2 = cx_op!(cx, format!("node 1 {} {}", bigg, p1));
+            for &p in &[p1, p2] {
+                cx_op!(cx, format!("size {}", p));
+                cx_op!(cx, format!("satcount {} {}", p, nv));
+                cx_op!(cx, format!("satcount {} {}", p, nv + 9));
+                cx_op!(cx, format!("onesat {}", p));
+                cx_op!(cx, format!("desc {}", p));
+            }
+            cx_op!(cx, format!("dot {}", p2));
+            cx_op!(cx, format!("bracket {}", p1));
+        }
         lap("gc done");
         cx.op("digest".into());
         cx.ex.scan(true);
@@ -2039,6 +2080,43 @@ pub fn s_memo(cx: &mut Ctx) {
 
 /// C08: substitution / cofactor entry points and accessors, exhaustively over three variables
 pub fn s_subst(cx: &mut Ctx) {
+    // cross-kind memo traffic: the care set / second operand is a node stored in cell N for a small N, and
+    // the substitution that follows names variable N — whatever another operation kind memoised under a
+    // key built from "N" must not be taken for a substitution result (large cache, no collection between)
+    for round in 0..(if cx.thorough { 4 } else { 1 }) {
+        cx_begin!(cx, 4, format!("new 11 4 {}", 9 + round % 2), 64);
+        let mut memo = HashMap::new();
+        let hs: Vec<usize> = (0..256u64).map(|f| build(cx, &mut memo, f)).collect();
+        // handles by cell index
+        let mut by_cell: HashMap<u32, usize> = HashMap::new();
+        for &h in &hs {
+            by_cell.entry(cx.ex.env[h].index()).or_insert(h);
+        }
+        for cell in 2..=4u32 {
+            let g = match by_cell.get(&cell) {
+                Some(&g) => g,
+                None => continue,
+            };
+            let ng = cx_op!(cx, format!("not {}", g));
+            for f in (round % 3..256usize).step_by(if cx.thorough { 1 } else { 3 }) {
+                // (Constrain and Restrict keys over the same pair share a slot: the kind asked last before
+                // the substitution is the one whose entry is still there — alternate)
+                let kinds: [&str; 3] = if (f + cell as usize) % 2 == 0 { ["and", "constrain", "restrict"] } else { ["and", "restrict", "constrain"] };
+                for k in kinds {
+                    for &c in &[g, ng] {
+                        cx_op!(cx, format!("{} {} {}", k, hs[f], c));
+                    }
+                }
+                for b in 0..2 {
+                    cx_op!(cx, format!("subst {} {} {}", hs[f], cell, b));
+                }
+                cx_op!(cx, format!("compose {} {} {}", hs[f], cell.min(4), g));
+                cx_op!(cx, format!("substm {} {}", hs[f], cell));
+                cx_op!(cx, format!("cofcube {} -{}", hs[f], cell));
+            }
+        }
+        cx.end();
+    }
     cx_begin!(cx, 4, "new 11 4 5".into(), 64);
     let mut memo = HashMap::new();
     let hs: Vec<usize> = (0..256u64).map(|f| build(cx, &mut memo, f)).collect();
@@ -3125,6 +3203,201 @@ pub fn s_gcwrap(cx: &mut Ctx) {
     }
 }
 
+/// classic function families over 2n variables (selectors s1..sn = variables 1..n, data d1..dn =
+/// variables n+1..2n): multiplexer chains, thresholds "at least k of d", parities, conjunctions,
+/// comparators — operands on which constrain / restrict / compose are known to blow up or to shrink
+/// dramatically — all pairs through every binary operation; constrain is checked pointwise against the
+/// closest-point definition on the stored diagrams
+pub fn s_family(cx: &mut Ctx) {
+    let ns: &[usize] = if cx.thorough { &[3, 4, 6, 8, 12, 16] } else { &[4, 8, 16] };
+    for (ci, &n) in ns.iter().enumerate() {
+        cx.ex.begin_case();
+        cx.ex.tt = None;
+        cx.ex.scan_every = 257;
+        if n <= 3 {
+            cx.op("vmap 1 2 3 4 5 6".into());
+        }
+        cx_op!(cx, format!("new {} 10 {}", if n >= 12 { 18 } else { 15 }, 10 + ci % 3));
+        let mut sv = vec![0usize];
+        let mut dv = vec![0usize];
+        for i in 1..=n {
+            sv.push(cx_op!(cx, format!("var {}", i)));
+        }
+        for i in 1..=n {
+            dv.push(cx_op!(cx, format!("var {}", n + i)));
+        }
+        let mut fam: Vec<usize> = vec![];
+        // multiplexer chain s1 ? d1 : (s2 ? d2 : … : last)
+        for last in [1usize, 0] {
+            let mut m = last;
+            for i in (1..=n).rev() {
+                m = cx_op!(cx, format!("ite {} {} {}", sv[i], dv[i], m));
+            }
+            fam.push(m);
+        }
+        // thresholds: t[k] = "at least k of d_i..d_n", built from the last data variable upwards
+        let mut t: Vec<usize> = vec![0]; // at least 0 of nothing = true; at least k>0 of nothing = false
+        for _ in 1..=n {
+            t.push(1);
+        }
+        for i in (1..=n).rev() {
+            let mut nt = vec![0usize];
+            for k in 1..=n {
+                nt.push(cx_op!(cx, format!("ite {} {} {}", dv[i], t[k - 1], t[k])));
+            }
+            t = nt;
+        }
+        for k in [1, (n + 1) / 2, n / 2 + 1, n] {
+            fam.push(t[k.min(n)]);
+        }
+        // parities and conjunctions
+        let mut pd = dv[n];
+        let mut ps = sv[n];
+        for i in (1..n).rev() {
+            pd = cx_op!(cx, format!("xor {} {}", dv[i], pd));
+            ps = cx_op!(cx, format!("xor {} {}", sv[i], ps));
+        }
+        fam.push(pd);
+        fam.push(ps);
+        fam.push(cx_op!(cx, format!("andmany {}", dv[1..].iter().map(|h| h.to_string()).collect::<Vec<_>>().join(" "))));
+        fam.push(cx_op!(cx, format!("ormany {}", sv[1..].iter().map(|h| h.to_string()).collect::<Vec<_>>().join(" "))));
+        // comparator: s (as a number, s1 most significant) > d
+        {
+            let mut gt = 1usize; // false
+            for i in (1..=n).rev() {
+                let nd = cx_op!(cx, format!("not {}", dv[i]));
+                let here = cx_op!(cx, format!("and {} {}", sv[i], nd));
+                let same = cx_op!(cx, format!("eq {} {}", sv[i], dv[i]));
+                let keep = cx_op!(cx, format!("and {} {}", same, gt));
+                gt = cx_op!(cx, format!("or {} {}", here, keep));
+            }
+            fam.push(gt);
+        }
+        // pairwise interactions "s_i and d_i" (selectors and data interleaved in meaning, far apart in order)
+        {
+            let mut acc = 1usize;
+            for i in 1..=n {
+                let p = cx_op!(cx, format!("and {} {}", sv[i], dv[i]));
+                acc = cx_op!(cx, format!("or {} {}", acc, p));
+            }
+            fam.push(acc);
+        }
+        let roots: Vec<String> = fam.iter().chain(sv[1..].iter()).chain(dv[1..].iter()).map(|h| h.to_string()).collect();
+        for (ai, &a) in fam.iter().enumerate() {
+            for (bi, &b) in fam.iter().enumerate() {
+                if ai == bi {
+                    continue;
+                }
+                let r1 = cx_op!(cx, format!("constrain {} {}", a, b));
+                cx_op!(cx, format!("restrict {} {}", a, b));
+                if (ai + bi) % 2 == 0 {
+                    cx_op!(cx, format!("compose {} {} {}", a, 1 + (ai * 7 + bi) % (2 * n), b));
+                    cx_op!(cx, format!("and {} {}", a, b));
+                    cx_op!(cx, format!("size {}", r1));
+                }
+                if (ai + 2 * bi) % 5 == 0 {
+                    cx_op!(cx, format!("ite {} {} {}", fam[(ai + bi) % fam.len()], a, b));
+                    cx_op!(cx, format!("implies {} {}", a, b));
+                }
+            }
+            // keep the table small: the family survives, the results do not
+            cx_op!(cx, format!("gc {}", roots.join(" ")));
+            cx.op("digest".into());
+        }
+        cx.end();
+    }
+}
+
+/// parents that are younger than their children but sit in LOWER cells: padding is created and
+/// discarded, an old diagram D survives a collection high up in the table, new parents over D are
+/// allocated into the freed low cells (several layers), then a collection keeps only the newest parent.
+/// Anything that assumes "children have smaller indices" (a one-pass mark, a bottom-up sweep for
+/// counting or exporting) goes wrong exactly here.
+pub fn s_young_low(cx: &mut Ctx) {
+    let cases = if cx.thorough { 600 } else { 30 };
+    for ci in 0..cases {
+        let n = 6u32;
+        let bb = cx.rng.below(4);
+        cx_begin!(cx, n, format!("new {} {} {}", 7 + ci % 3, bb, 2 + cx.rng.below(4)), 1);
+        // padding in the low cells
+        let pad = 3 + cx.rng.below(10);
+        let mut padh = vec![];
+        for _ in 0..pad {
+            let (a, b) = (1 + cx.rng.below(6), 1 + cx.rng.below(6));
+            if a != b {
+                let va = cx_op!(cx, format!("var {}", a.min(b)));
+                let vb = cx_op!(cx, format!("var {}", a.max(b)));
+                padh.push(cx_op!(cx, format!("{} {} {}", cx.rng.pick(&["and", "or", "xor"]), va, vb)));
+            }
+        }
+        // the old diagram over variables 4..6 (a few nodes deep)
+        let mut memo = HashMap::new();
+        let t3 = (cx.rng.next() & 0xff) | 0x100; // some function of three variables, not constant
+        let sub: Vec<u32> = vec![4, 5, 6];
+        let mut tab = expand(t3 & 0xff, &sub);
+        if tab == 0 || tab == u64::MAX {
+            tab = expand(0x96, &sub);
+        }
+        let d = build(cx, &mut memo, tab);
+        cx_op!(cx, format!("gc {}", d));
+        cx.op("dump".into());
+        // young parents in the freed low cells, several layers
+        let side = |cx: &mut Ctx, d: usize| -> usize {
+            match cx.rng.below(4) {
+                0 => 0usize,
+                1 => 1,
+                2 => d,
+                _ => cx_op!(cx, format!("not {}", d)),
+            }
+        };
+        let mut cur = d;
+        let mut layers = vec![d];
+        for v in [3u32, 2, 1] {
+            let o = side(cx, d);
+            let h = if cx.rng.chance(1, 2) { cx_op!(cx, format!("node {} {} {}", v, o, cur)) } else { cx_op!(cx, format!("node {} {} {}", v, cur, o)) };
+            if cx.reply().starts_with("r ") && cx.ex.env[h] != cx.ex.env[cur] {
+                cur = h;
+                layers.push(h);
+            }
+            if cx.rng.chance(1, 3) {
+                break;
+            }
+        }
+        // queries that walk the diagram, then a collection that keeps only the newest parent
+        for q in ["size", "satcount", "onesat", "paths", "bracket", "dot", "desc"] {
+            match q {
+                "satcount" => cx_op!(cx, format!("satcount {} {}", cur, 6 + cx.rng.below(3))),
+                _ => cx_op!(cx, format!("{} {}", q, cur)),
+            };
+        }
+        let roots: Vec<String> = match ci % 3 {
+            0 => vec![cur.to_string()],
+            1 => vec![cur.to_string(), cur.to_string()],
+            _ => vec![cur.to_string(), layers[cx.rng.below(layers.len() as u64) as usize].to_string()],
+        };
+        cx_op!(cx, format!("gc {}", roots.join(" ")));
+        cx.op("dump".into());
+        for q in ["size", "paths", "dot", "desc"] {
+            cx_op!(cx, format!("{} {}", q, cur));
+        }
+        cx_op!(cx, format!("satcount {} 6", cur));
+        // reuse whatever was freed, then look at the survivor again
+        for _ in 0..(2 + cx.rng.below(5)) {
+            let (a, b) = (1 + cx.rng.below(6), 1 + cx.rng.below(6));
+            if a != b {
+                let va = cx_op!(cx, format!("var {}", a));
+                let vb = cx_op!(cx, format!("var {}", b));
+                cx_op!(cx, format!("{} {} {}", cx.rng.pick(&["and", "or", "xor"]), va, vb));
+            }
+        }
+        cx_op!(cx, format!("size {}", cur));
+        cx_op!(cx, format!("satcount {} 6", cur));
+        cx_op!(cx, format!("gc {}", cur));
+        cx.op("dump".into());
+        cx.end();
+    }
+}
+
 /// histories over 8–40 variables in managers created by `Bdd::new(bits)` itself (default bucket and cache
 /// sizes, up to 2^20 cells); oracles: sampled evaluation on 64 assignments, signatures across collections,
 /// structural scans every 64 operations
@@ -3247,6 +3520,8 @@ pub fn run_suite(name: &str, cx: &mut Ctx) -> bool {
         "export" => s_export(cx),
         "table" => s_table(cx),
         "hugevar" => s_hugevar(cx),
+        "family" => s_family(cx),
+        "young_low" => s_young_low(cx),
         "deep" => s_deep(cx),
         "split" => s_split(cx),
         "wide" => s_wide(cx),
@@ -3264,5 +3539,5 @@ pub fn run_suite(name: &str, cx: &mut Ctx) -> bool {
 }
 
 pub const ALL_SUITES: &[&str] = &[
-    "mk", "ite3", "conn", "hist", "gc_chain", "gc_reuse", "big", "soak", "memo", "subst", "compose", "constrain", "restrict", "itec", "count", "export", "table", "cache", "cacherep", "kcache", "raw", "eda", "hugevar", "gcwrap", "tnode", "huge", "wide", "split", "deep",
+    "mk", "ite3", "conn", "hist", "gc_chain", "gc_reuse", "big", "soak", "memo", "subst", "compose", "constrain", "restrict", "itec", "count", "export", "table", "cache", "cacherep", "kcache", "raw", "eda", "hugevar", "gcwrap", "tnode", "huge", "wide", "split", "deep", "young_low", "family",
 ];
